@@ -95,29 +95,30 @@ pub fn c17_asin_acos_domain() {
     reached();
 }
 
-//@ id=C17 tier=quick to=1800 cfg=std exh=1 desc="ground on the real code: asin(0) == 0, atan(0) == 0, acos(1) == 0 exactly; asin(+-1) == +-pi/2 and acos(-1) == pi within 2^-100; atan(1/2), atan(1), atan(3/2) equal the mpmath-rounded double-doubles of atan(1/2), pi/4, atan(3/2) (the additive constants of the interval reduction)"
-#[cfg_attr(kani, kani::proof)]
-#[cfg_attr(kani, kani::unwind(17))]
-pub fn c17_exact_points() {
-    let z = gtf(0.0, 0.0);
-    let a = z.asin();
-    assert!(a.hi() == 0.0 && a.lo() == 0.0);
-    let b = z.atan();
-    assert!(b.hi() == 0.0 && b.lo() == 0.0);
-    let c = gtf(1.0, 0.0).acos();
-    assert!(c.hi() == 0.0 && c.lo() == 0.0);
+/// ground (pinned) checks against mpmath words / bounds on the real code; `which`:
+/// 0: asin(1) - pi/2, 1: asin(-1) + pi/2, 2: acos(-1) - pi within 2^-100;
+/// 3: atan(1/2), 4: atan(1), 5: atan(3/2), 6: atan(-1/2) bit-equal to the mpmath double-doubles
+pub fn ground_value(which: u8) {
     let pi2 = rc(R::FRAC_PI_2);
     let pi = rc(R::PI);
-    let d = gtf(1.0, 0.0).asin() - pi2;
-    assert!(d.hi().abs() <= pow2(-100));
-    let e = gtf(-1.0, 0.0).asin() + pi2;
-    assert!(e.hi().abs() <= pow2(-100));
-    let f = gtf(-1.0, 0.0).acos() - pi;
-    assert!(f.hi().abs() <= pow2(-100));
-    assert!(bits_eq(gtf(0.5, 0.0).atan(), rc(R::ATAN_FRAC_1_2)));
-    assert!(bits_eq(gtf(1.0, 0.0).atan(), rc(R::FRAC_PI_4)));
-    assert!(bits_eq(gtf(1.5, 0.0).atan(), rc(R::ATAN_FRAC_3_2)));
-    assert!(bits_eq(gtf(-0.5, 0.0).atan(), -rc(R::ATAN_FRAC_1_2)));
+    match which {
+        0 => {
+            let d = gtf(1.0, 0.0).asin() - pi2;
+            assert!(d.hi().abs() <= pow2(-100));
+        }
+        1 => {
+            let e = gtf(-1.0, 0.0).asin() + pi2;
+            assert!(e.hi().abs() <= pow2(-100));
+        }
+        2 => {
+            let f = gtf(-1.0, 0.0).acos() - pi;
+            assert!(f.hi().abs() <= pow2(-100));
+        }
+        3 => assert!(bits_eq(gtf(0.5, 0.0).atan(), rc(R::ATAN_FRAC_1_2))),
+        4 => assert!(bits_eq(gtf(1.0, 0.0).atan(), rc(R::FRAC_PI_4))),
+        5 => assert!(bits_eq(gtf(1.5, 0.0).atan(), rc(R::ATAN_FRAC_3_2))),
+        _ => assert!(bits_eq(gtf(-0.5, 0.0).atan(), -rc(R::ATAN_FRAC_1_2))),
+    }
     reached();
 }
 
